@@ -2,7 +2,6 @@ import Mp.ProofsNI
 import Mp.ProofsNILink
 import Mp.SortProofs
 import Mp.Analysis
-import Mp.FactChecks
 import Mp.ProofsAddr
 /-! C20 — property theorems (proved in the imported modules; statements are checked there, axioms audited here). -/
 #print axioms Mp.ni_path_full
@@ -12,7 +11,6 @@ import Mp.ProofsAddr
 #print axioms Mp.C20_query_noninterference
 #print axioms Mp.rootTop_path_mem
 #print axioms Mp.rootTop_sorted_nodup
-#print axioms Mp.FactChecks.root_fields_param_kinds
 #print axioms Mp.dedupPaths_covers
 #print axioms Mp.dedupPaths_from
 #print axioms Mp.dedupPaths_nodup
